@@ -48,8 +48,8 @@ pub struct Entry {
     pub id: usize,
     pub to_vec: fn(&GenVal) -> Result<Vec<u8>, String>,
     pub len: fn(&GenVal) -> usize,
-    /// Ok(bytes written) or Err(is_write_error)
-    pub encode_slice: fn(&GenVal, &mut [u8]) -> Result<usize, bool>,
+    /// (Ok or Err(is_write_error), number of bytes accepted by the slice)
+    pub encode_slice: fn(&GenVal, &mut [u8]) -> (Result<(), bool>, usize),
     pub decode: fn(&[u8]) -> DecRes,
 }
 
